@@ -105,6 +105,15 @@ Theorem C06_quad_small_a : forall a b t0 t1, 0 <= t0 <= t1 ->
   Rabs (cabs NumTR b * (t1 - t0) - arclen (qdx a b) (qdy a b) t0 t1) <= cabs NumTR a * (t1 * t1 - t0 * t0).
 Proof. exact quad_small_a_bound. Qed.
 
+(* the nearly straight branch of the repaired code (C06-quad-length-near-linear,
+   guard abs(a) < 1e-8 abs(b)): below the arc length by at most
+   (4/3) |a|^2/|b| (t1^3 - t0^3), i.e. relative error <= 4 (|a|/|b|)^2 *)
+Theorem C06_quad_near_linear : forall a b t0 t1,
+  0 <= t0 <= t1 -> t1 <= 1 -> 4 * cabs NumTR a <= cabs NumTR b -> 0 < cabs NumTR b ->
+  0 <= arclen (qdx a b) (qdy a b) t0 t1 - quad_near_linear NumR NumTR a b t0 t1
+    <= 4 / 3 * (cabs NumTR a * cabs NumTR a) / cabs NumTR b * (t1 * t1 * t1 - t0 * t0 * t0).
+Proof. exact quad_near_linear_bound. Qed.
+
 (* Path.length *)
 Theorem C06_path_sum : forall (gs : list C1curve) lens, lens = map (fun g => curve_len g 0 1) gs ->
   path_length_full NumR lens = Rsum (map (fun g => curve_len g 0 1) gs).
@@ -140,5 +149,6 @@ Print Assumptions C06_bracket_arc_samples.
 Print Assumptions C06_quad_closed_form.
 Print Assumptions C06_quad_collinear.
 Print Assumptions C06_quad_small_a.
+Print Assumptions C06_quad_near_linear.
 Print Assumptions C06_path_sum.
 Print Assumptions C06_path_sub.
